@@ -6,6 +6,16 @@ from irbmc.core import Family, Harness, STRING_MODEL
 NOINLINE = [r'ChaiScript_Basic::(load_file|skip_bom)', r'std::basic_ifstream<.*>::~basic_ifstream', r'std::basic_ifstream<.*>::basic_ifstream', r'file_not_found_error::', r'std::vector<char, std::allocator<char> >::vector\('] + STRING_MODEL
 FAM = Family('files', 'files.cpp', noinline=NOINLINE)
 
+def replay(inp, shape, failed):
+    import re
+    try:
+        L = shape['L']; ex = int(re.sub(r'\D', '', inp['file_exists']['v'])) & 1
+        hx = ''.join(inp['file_bytes[%dl]' % i]['hex'][-2:] for i in range(L))
+    except Exception as e: return None, 'inputs missing from trace: %s (%s)' % (sorted(inp)[:8], e)
+    cmd = [core.native_tool('c19_replay', ['-fno-access-control']), hx or '-'] + ([] if ex else ['missing'])
+    r = core.run(cmd, timeout=60)
+    return (True if r.returncode == 1 else False if r.returncode == 0 else None), ' '.join(cmd[1:]) + ' -> ' + r.stdout.strip()
+
 def harnesses(tier):
     rx = r'ChaiScript_Basic::load_file'
     g, info = core.translate(FAM, [rx], [r'file_not_found_error::', r'std::basic_ifstream<.*>::~basic_ifstream'] + STRING_MODEL, tag='F1_load_file')
@@ -17,7 +27,7 @@ def harnesses(tier):
     ls = [0, 1, 2, 3, 4, 5] if tier == 'quick' else [0, 1, 2, 3, 4, 5, 6, 7, 8, 10]
     shapes = [dict(d, L=l, _tag='length=%d' % l, _witness=('witness: missing file', 'witness: file loaded') + (('witness: byte order mark',) if l >= 3 else ())) for l in ls]
     return [Harness('F1.load_file', FAM, [rx], 'c19_load_file.c', stubs=[r'file_not_found_error::', r'std::basic_ifstream<.*>::~basic_ifstream'], shapes=shapes, opts=['--unwind', '18'], timeout=300, mem_gb=6, string_model=True,
-                    defines={'STRING_LITERALS_OPAQUE': 1}, inputs=['file_bytes', 'file_exists'], note='every content of exactly L bytes; file present or missing')]
+                    defines={'STRING_LITERALS_OPAQUE': 1}, inputs=['file_bytes', 'file_exists'], note='every content of exactly L bytes; file present or missing', replay=replay)]
 
 ASSUMPTIONS = ['std::ifstream is a contract model written from the standard (short read => eofbit|failbit; failed stream ignores seekg/read; tellg == -1 when failed; clear() resets)',
                'std::string via the SSO-only model: file content <= 15 bytes']
